@@ -312,7 +312,7 @@ def c03_gen(tier, rng):
             lc = G.op_case_literals(op, a)
             if lc:
                 cases.append((lc, {"kind": "op-lits", "op": op, "a": a, "b": None}))
-    n_rand = 20000 if tier == "quick" else 400000
+    n_rand = 20000 if tier == "quick" else 100000
     for _ in range(n_rand):
         op = rng.choice(G.BINOPS)
         k = rng.random()
@@ -2347,3 +2347,32 @@ PROPS["C16"] = {
     "nontrivial": lambda c, out: True,
     "assumptions": ["PARTIAL: serde's derive output and the ron wire format are exercised, not modelled; the theorems cover only Deserialize for Node = build_operator_tree and the field selection of the context for any round-tripping codec"],
 }
+
+
+
+# ---------------------------------------------------------------------------------------------
+# thorough tier: the full-size first chunk where a generator has one, then many more quick-sized chunks
+# drawn from the same PRNG stream (fresh random cases every time; fixed parts repeat and are counted once)
+# ---------------------------------------------------------------------------------------------
+
+def deepen(gen, reps, first_thorough=False):
+    def g(tier, rng):
+        def chunks_of(x):
+            if isinstance(x, list):
+                yield x
+            else:
+                yield from x
+        if tier == "quick":
+            yield from chunks_of(gen("quick", rng))
+            return
+        if first_thorough:
+            yield from chunks_of(gen("thorough", rng))
+        for _ in range(reps):
+            yield from chunks_of(gen("quick", rng))
+    return g
+
+
+for _pid, _reps, _first in (("C01", 60, False), ("C03", 120, True), ("C04", 200, False), ("C06", 80, False), ("C07", 150, False),
+                            ("C08", 200, False), ("C10", 30, True), ("C11", 150, False), ("C12", 150, False), ("C14", 150, False),
+                            ("C15", 5, False), ("C16", 10, False), ("C09", 1, True)):
+    PROPS[_pid]["gen"] = deepen(PROPS[_pid]["gen"], _reps, _first)
